@@ -38,6 +38,18 @@ Theorem C03_rescaled_returned_expression :
 Proof. split; reflexivity. Qed.
 Print Assumptions C03_rescaled_returned_expression.
 
+(* The rescaled recursion over TIP STATES (calculate_treelikelihood_tip_states_discrete_rescaled, regenerated
+   as well): the quantity divided by the scaler is the update of the plain tip-state loop — which
+   C01_tip_state_loop_is_tip_partial_loop proves equal to the tip-partial update on indicator partials — and
+   the returned expression is the same weighted sum of both terms. *)
+Theorem C03_rescaled_tip_state_loop_uses_the_plain_update :
+  forall (T : Type) (N : Num T) S tc mats states partials node lf rt,
+  g_update_states_rescaled_num N S tc mats states partials node lf rt
+    = g_update_states N S tc mats states partials node lf rt /\
+  g_return_states_rescaled = expected_return_rescaled.
+Proof. intros. split; reflexivity. Qed.
+Print Assumptions C03_rescaled_tip_state_loop_uses_the_plain_update.
+
 (* ... and the rescaled ARRAY LOOP built around that regenerated numerator ([rs_update]: the K numerators of a
    node, divided by the node's scaler; ln scaler added to the running sum) leaves at the root exactly the
    model's rescaled recursion [prune_rs] — whose value C03_rescaled_eq_plain proves equal to the plain
